@@ -259,6 +259,26 @@ func (a *FuncAn) Reachable(b *ssa.BasicBlock) bool { return a.in[b] != nil }
 // ---------------------------------------------------------------------------
 // branch conditions
 
+// noWriteAfter: no store / call follows the load inside its block (the loaded location still holds the value
+// when the block's branch is taken).
+func noWriteAfter(ld *ssa.UnOp) bool {
+	after := false
+	for _, ins := range ld.Block().Instrs {
+		if ins == ssa.Instruction(ld) {
+			after = true
+			continue
+		}
+		if !after {
+			continue
+		}
+		switch ins.(type) {
+		case *ssa.Store, ssa.CallInstruction, *ssa.MapUpdate, *ssa.RunDefers:
+			return false
+		}
+	}
+	return after
+}
+
 func isNilConst(v ssa.Value) bool {
 	c, ok := v.(*ssa.Const)
 	return ok && c.Value == nil && !isBasic(c.Type())
@@ -268,6 +288,7 @@ func isBasic(t types.Type) bool { _, ok := t.Underlying().(*types.Basic); return
 
 func (a *FuncAn) condFacts(s *State, cond ssa.Value, truth bool) {
 	s.truth[cond] = truth
+	defer a.releaseCFacts(s)
 	switch c := cond.(type) {
 	case *ssa.UnOp:
 		if c.Op == token.NOT {
@@ -276,6 +297,10 @@ func (a *FuncAn) condFacts(s *State, cond ssa.Value, truth bool) {
 		return
 	case *ssa.Call:
 		a.boolCallFacts(s, c, truth)
+		if k, ok := a.pureCallKey(c); ok {
+			s.truth[k] = truth
+		}
+		a.releaseCFacts(s)
 		return
 	case *ssa.Extract:
 		if ta, ok := c.Tuple.(*ssa.TypeAssert); ok && c.Index == 1 && truth {
@@ -304,6 +329,11 @@ func (a *FuncAn) condFacts(s *State, cond ssa.Value, truth bool) {
 			v = a.cv(v)
 			if op == token.NEQ {
 				s.nonnil[v] = true
+				if ld, ok := v.(*ssa.UnOp); ok && ld.Op == token.MUL && ld.Block() == c.Block() && noWriteAfter(ld) {
+					if p := a.pathOf(ld.X); p != nil {
+						s.nnPath[p.key()] = p
+					}
+				}
 			}
 			if op == token.EQL {
 				if _, ok := v.Type().Underlying().(*types.Slice); ok {
@@ -604,6 +634,11 @@ func (a *FuncAn) edgeState(p, b *ssa.BasicBlock, idx int) *State {
 	}
 	ns.nonnil = s.nonnil
 	ns.truth = s.truth
+	for k := range ns.truth {
+		if _, isStr := k.(string); isStr {
+			delete(ns.truth, k)
+		}
+	}
 	ns.nnPath = s.nnPath
 	return ns
 }
@@ -669,6 +704,7 @@ func (a *FuncAn) join(A, B *State) *State {
 			r.nnPath[k] = p
 		}
 	}
+	a.joinCFacts(r, A, B)
 	return r
 }
 
@@ -868,6 +904,13 @@ func (a *FuncAn) transfer(b *ssa.BasicBlock, in *State, stop ssa.Instruction) *S
 				delete(s.nnPath, k)
 			}
 		}
+		for i := 0; i < len(s.cfacts); i++ {
+			if cp := s.cfacts[i].path; cp != nil && f(cp) {
+				mut()
+				s.cfacts = append(append([]cfact(nil), s.cfacts[:i]...), s.cfacts[i+1:]...)
+				i--
+			}
+		}
 	}
 	for _, ins := range b.Instrs {
 		if ins == stop {
@@ -897,20 +940,19 @@ func (a *FuncAn) transfer(b *ssa.BasicBlock, in *State, stop ssa.Instruction) *S
 				}
 			}
 		case ssa.CallInstruction:
-			if len(s.nnPath) > 0 {
-				m := availMap{}
-				for k, pv := range s.nnPath {
-					m[k] = availEnt{pv.(*apath), nil}
+			hasPath := len(s.nnPath) > 0
+			for _, cf := range s.cfacts {
+				if cf.path != nil {
+					hasPath = true
 				}
-				a.killByCall(m, a.E.callWrites(a, x))
-				if len(m) != len(s.nnPath) {
-					mut()
-					for k := range s.nnPath {
-						if _, ok := m[k]; !ok {
-							delete(s.nnPath, k)
-						}
-					}
-				}
+			}
+			if hasPath {
+				ws := a.E.callWrites(a, x)
+				kill(func(p *apath) bool {
+					m := availMap{"x": availEnt{p, nil}}
+					a.killByCall(m, ws)
+					return len(m) == 0
+				})
 			}
 		case *ssa.RunDefers:
 			kill(func(p *apath) bool {
